@@ -23,6 +23,18 @@ def na(pid, reason):
 
 
 # ---------------------------------------------------------------------------------------------
+claim("C01", "other",
+      "Structural proof of the writer invariant: only push_param changes counter/values, every path through it appends one "
+      "placeholder carrying the post-increment count and pushes the one value, every backend's prepare_value reaches it "
+      "exactly once with a clone of its argument, the entry points wire placeholder() of the rendering backend in and return "
+      "into_parts(), and no renderer writes a placeholder mark itself. All control paths of the named functions and all call "
+      "sites in the crate are enumerated, in each analysed feature configuration; by induction the i-th placeholder carries "
+      "the i-th value for every statement.",
+      "Decides the writer mechanism for all statements; assumes user-supplied raw SQL has no unquoted placeholder marks; "
+      "'no value is dropped by a renderer' is shared with C07/C08 field consumption; the engine-side meaning of ?/$n is the "
+      "dialect's (specs). Trusts rustc's HIR/MIR and the extractor.",
+      "path-effect summaries + who-may-write/who-may-call census over rustc HIR/MIR", "DESIGN.md section 4, C01")
+
 claim("C20", "proof",
       "Every reachable non-generic ADT and alias of the crate is Send and Sync in the thread-safe configuration; each "
       "obligation is discharged by rustc's own trait solver on the real build, with a control query in the configuration "
